@@ -42,9 +42,12 @@ Definition case_places (c : case) : list string :=
 
 Definition spec_has_ext (u : string) : bool := ends_with u ".scss" || ends_with u ".css".
 
+(* `a`, `./a` and `d/../a` are spellings of one url: `.`, `..` and empty segments are resolved lexically *)
+Definition case_url (c : case) : string := normalize (c_url c).
+
 Definition case_cand_names (c : case) : list (scand * string) :=
-  if spec_has_ext (c_url c) then [((ShPlain, XScss), c_url c)]
-  else let (b, n) := split_dir (c_url c) in cand_names (is_import (c_kind c)) b n.
+  if spec_has_ext (case_url c) then [((ShPlain, XScss), case_url c)]
+  else let (b, n) := split_dir (case_url c) in cand_names (is_import (c_kind c)) b n.
 
 Definition case_allowed (c : case) : list string :=
   allowed_gen (case_isfile c) (case_places c) (case_cand_names c).
